@@ -114,6 +114,13 @@ AddRecord(c, ext, cs, mg) ==
                 nr == Merge(ext, c.recs[i])
             IN [out |-> Ok, conv |-> IndexAdd([c EXCEPT !.recs[i] = nr], nr)]
   ELSE [out |-> Ok, conv |-> IndexAdd([c EXCEPT !.recs = Append(@, ext)], ext)]
+\* coverage signature of a match: on which side, exactly or only up to letter case
+MatchKinds(c, ext, cs) ==
+  (IF \E r \in RecSet(c) : AllP(ext) \cap AllP(r) # {} THEN {"P"} ELSE {}) \cup
+  (IF \E r \in RecSet(c) : AllU(ext) \cap AllU(r) # {} THEN {"U"} ELSE {}) \cup
+  (IF ~cs /\ \E r \in RecSet(c) : \E a \in AllP(ext), b \in AllP(r) : a # b /\ CF(a) = CF(b) THEN {"Pcase"} ELSE {}) \cup
+  (IF ~cs /\ \E r \in RecSet(c) : \E a \in AllU(ext), b \in AllU(r) : a # b /\ CF(a) = CF(b) THEN {"Ucase"} ELSE {})
+HasEmpty(rs) == \E i \in 1..Len(rs) : <<>> \in AllP(rs[i]) \/ <<>> \in AllU(rs[i])
 \* add_prefix builds the Record first (pydantic validation may reject it)
 AddPrefix(c, ext, cs, mg) ==
   IF ~ValidRec(ext) THEN [out |-> Raise("valueerror"), conv |-> c]
